@@ -69,7 +69,7 @@ def build_and_run(ctx, tag, lib, options):
     elif diffs or len(a) != len(b):
         st = "differs"
     res = {"status": st, "diffs": diffs[:4], "lines": (len(a), len(b)), "detail": (o2.stderr or o1.stderr)[-900:],
-           "yaml": open(d + "/eq.yaml").read(), "calls": len(lib["funcs"])}
+           "yaml": open(d + "/eq.yaml").read(), "calls": len(lib["funcs"]) + 14}
     if st == "ok":
         shutil.rmtree(d, ignore_errors=True)
     return res
@@ -79,7 +79,8 @@ def run(ctx):
     ctx.rules.append("generated libraries as for C02 (8 functions: global, const / non-const / static methods; 0-4 parameters over native "
                      "values, pointers in/out/inout, references, const std::string&, const char*, std::string& out/inout, arrays with "
                      "implied extent, class arguments; results void / numeric / bool / enum / std::string / const std::string& / const "
-                     "char*); values incl. INT_MIN/MAX, empty, blank-containing and trailing-blank strings, zero-length arrays; option "
+                     "char*; plus default-argument functions and a method at every arity, two template instantiations, allocatable rank-1 / "
+                     "rank-2 and pointer rank-1 array results whose extent, shape and every element are printed); values incl. INT_MIN/MAX, empty, blank-containing and trailing-blank strings, zero-length arrays; option "
                      "sets {}, {debug}, {F_CFI}. non-trivial = distinct (library, option set, call)")
     ctx.assume += ["the flow extractor tools/fflow.py (regular expressions over the generated module text) is trusted; what it does not "
                    "recognise fails the check (fail closed)",
